@@ -422,8 +422,8 @@ func (c *tunnelTimeMetrics) Describe(ch chan<- *prometheus.Desc) {
 }
 
 func (c *tunnelTimeMetrics) Collect(ch chan<- prometheus.Metric) {
-	tNow := now()
 	c.mu.Lock()
+	tNow := now()
 	for ipKey, client := range c.activeClients {
 		c.reportTunnelTime(ipKey, client, tNow)
 	}
